@@ -67,26 +67,43 @@ def check(run, prog, tier):
             for s_ in subterms(c):
                 if s_[0] == "attr" and s_[1] == me and s_[2] not in ("service_id", "version_major", "methods", "log", "instance_id", "version_minor") and s_ not in free:
                     free.append(s_)
-    if len(free) > 3:
-        raise AnalysisError(f"{mr.qual}: decision consults {len(free)} undocumented attributes {[show(f) for f in free]}")
+    # ... and fields of the request itself that the statement does not make the decision depend on (client id, session id,
+    # payload length ...): the table must hold for every value of them, in particular 0 and the literals the code compares with
+    free_msg = []
+    for p in paths:
+        for c, _, _, _ in p.conds:
+            for s_ in subterms(c):
+                if s_[0] == "attr" and s_[1] == msg and s_[2] not in ("service_id", "interface_version", "method_id", "message_type", "return_code") \
+                        and s_ not in free_msg:
+                    free_msg.append(s_)
+    if len(free) > 3 or len(free_msg) > 2:
+        raise AnalysisError(f"{mr.qual}: decision consults {len(free)} undocumented attributes {[show(f) for f in free + free_msg]}")
     # "another service" / "another interface version" are classes of values: besides a fresh representative every literal
     # the code itself compares the field with is a member (an undocumented wildcard value would otherwise go unnoticed)
     from ..absint import constants_compared
     allconds = [c for p in paths for c, _, _, _ in p.conds]
     other_sid = [0x2222] + sorted(v for v in constants_compared(allconds, lambda tm: tm == ("attr", msg, "service_id")) if isinstance(v, int) and v != 0x1111)[:3]
     other_iv = [4] + sorted(v for v in constants_compared(allconds, lambda tm: tm == ("attr", msg, "interface_version")) if isinstance(v, int) and v != 3)[:3]
-    for svc_v, iv_v, known, mtype, rcode, hres, multi, fvals in itertools.product(
+    fm_dom = []
+    for fmt_ in free_msg:
+        lits = sorted(v for v in constants_compared(allconds, lambda tm, fmt_=fmt_: tm == fmt_) if isinstance(v, int))[:2]
+        fm_dom.append(sorted(set([0, 0x1234] + lits)) if fmt_[2] != "payload" else [b"", b"req"])
+    for svc_v, iv_v, known, mtype, rcode, hres, multi, fvals, mvals in itertools.product(
             [0x1111] + other_sid, [3] + other_iv, (True, False), ("REQUEST", "REQUEST_NO_RETURN", "NOTIFICATION", "RESPONSE"), ("E_OK", "E_NOT_OK"),
-            ("bytes", "none", "malformed"), (False, True), list(itertools.product((False, True), repeat=len(free)))):
+            ("bytes", "none", "malformed"), (False, True), list(itertools.product((False, True), repeat=len(free))),
+            list(itertools.product(*fm_dom))):
         cases += 1
         svc_ok, iv_ok = svc_v == 0x1111, iv_v == 3
         fmap = dict(zip(free, fvals))
+        fmap.update(dict(zip(free_msg, mvals)))
         vals = {"service_id": svc_v, "interface_version": iv_v, "method_id": 7,
                 "message_type": mt[mtype], "return_code": rc[rcode], "payload": b"req"}
 
         def leaf(tm):
             if tm == mc:
                 return multi
+            if tm in fmap and tm[0] == "attr" and tm[1] == msg:
+                return fmap[tm]
             if tm[0] == "attr" and tm[1] == msg and tm[2] in vals:
                 return vals[tm[2]]
             if tm == ("attr", me, "service_id"):
